@@ -130,6 +130,8 @@ def run_real(case):
   from openhtf.plugs.usb import adb_message as am
   from openhtf.plugs.usb import usb_exceptions as ue
   from openhtf.util import timeouts
+  # as adb_device does: the filesync service builds its own command table with make_wire_commands
+  from openhtf.plugs.usb import filesync_service  # pylint: disable=unused-import
   logging.getLogger(am.__name__).disabled = True
   kind = case['kind']
   if kind == 'W':
@@ -326,6 +328,13 @@ def gen_cases(rng, tier):
       hh = _pack(f)
     cases.append({'kind': 'R', 'script': [hh] + [_payload(rng.randrange(0, 4), rng) for _ in range(rng.randrange(0, 3))],
                   'what': 'random'})
+  # command words that other tables of the package know (filesync ids) are unknown ADB commands all the same
+  for cmd in ('STAT', 'LIST', 'SEND', 'RECV', 'DENT', 'DONE', 'DATA', 'FAIL', 'QUIT'):
+    for data in ('', '6162'):
+      f = _hdr_fields('OKAY', 1, 2, data)
+      w = sum(ord(c) << (8 * i) for i, c in enumerate(cmd))
+      f[0], f[5] = w, w ^ 0xFFFFFFFF
+      cases.append({'kind': 'R', 'script': [_pack(f)] + ([data] if data else []), 'what': 'foreign-command'})
   # concurrent writers / readers on a gated transport
   scheds = [list(s) for s in itertools.product([0, 1], repeat=4)]
   if tier == 'thorough':
